@@ -200,6 +200,9 @@ class SolveTimeout(BaseException):
     pass
 
 
+_CONFIRMED = [False]      # this process has seen a solve exceed both budgets
+
+
 def _with_budget(fn, budgets=(20, 120)):
     """Run fn() under a wall-clock watchdog; a run over the first budget is repeated once under the second."""
     import signal, threading
@@ -208,6 +211,8 @@ def _with_budget(fn, budgets=(20, 120)):
 
     def onalarm(signum, frame):
         raise SolveTimeout()
+    if _CONFIRMED[0]:
+        budgets = (5,)          # a confirmed timeout is already a violation of this run; keep the rest of the run short
     for i, b in enumerate(budgets):
         old = signal.signal(signal.SIGALRM, onalarm)
         signal.setitimer(signal.ITIMER_REAL, b)
@@ -215,6 +220,7 @@ def _with_budget(fn, budgets=(20, 120)):
             return fn()
         except SolveTimeout:
             if i == len(budgets) - 1:
+                _CONFIRMED[0] = True
                 raise
         finally:
             signal.setitimer(signal.ITIMER_REAL, 0)
